@@ -13,6 +13,9 @@ import TempestVerif.Model.Cadence
        → `index=<i> label=<relabelled assignment> mode=<idx list>`   or   `IndexError` (index has no mode)
        stored=none: the `self.labels is None` path (index = assignment, label = assignment)
        old=1: the raw-index lookup used before commit 88d298f  → `index=<a> label=<label of that mode> mode=…` or `IndexError`
+   (instead of near=: d2=<rationals> = the particle's row of SQUARED distances to the K mode means; the model takes the first minimum)
+   modes.dof nu=<rational|inf> fb=<rational>   → the stored degrees of freedom (`if ~isfinite(dof): dof = dof_fallback`)
+   wire.maxit cap=<n|none>                      → `max_iterations` the core hands to the clusterer
    cad.trace ce=<k> sched=<bits> resume=<idx or -> iter0=<n> [clustering=0|1] [old=1]
        → `<events> <verdict> fitted=<0|1> iter=<n>`   events: N = fresh clusterer object, F = fit, P = predict;
          verdict ok | predictBeforeFit.   sched: 1 = an iteration with β = 0, 0 = β > 0; resume = index of the schedule
@@ -43,16 +46,42 @@ def modesFrom (args : List (String × String)) : String :=
   | none => "bad-op"
 
 def modesLookup (args : List (String × String)) : String :=
-  match (getArg args "labels").bind parseNatList?, (getArg args "assign").bind String.toNat?,
-        (getArg args "near").bind String.toNat? with
-  | some labels, some a, some near =>
+  match (getArg args "labels").bind parseNatList?, (getArg args "assign").bind String.toNat? with
+  | some labels, some a =>
     let old := (getArg args "old") == some "1"
     let noStored := (getArg args "stored") == some "none"
-    let i := if old then a else modeIndexOpt (if noStored then none else some (labelsOf labels)) near a
-    match modeOfRaw (fromParticles labels) i, (if noStored then some a else (labelsOf labels)[i]?) with
-    | some m, some l => s!"index={i} label={l} mode={showList toString m}"
-    | _, _ => "IndexError"
-  | _, _, _ => "bad-op"
+    let idx? : Option Nat :=
+      if old then some a else
+      match getArg args "d2" with
+      | some ds => match parseList? parseRat? ds with
+        | some drow => if noStored then some a else modeIndexD (labelsOf labels) drow a
+        | none => none
+      | none => ((getArg args "near").bind String.toNat?).map fun near =>
+          modeIndexOpt (if noStored then none else some (labelsOf labels)) near a
+    match idx? with
+    | none => "bad-op"
+    | some i =>
+      match modeOfRaw (fromParticles labels) i, (if noStored then some a else (labelsOf labels)[i]?) with
+      | some m, some l => s!"index={i} label={l} mode={showList toString m}"
+      | _, _ => "IndexError"
+  | _, _ => "bad-op"
+
+def modesDof (args : List (String × String)) : String :=
+  match getArg args "nu", (getArg args "fb").bind parseRat? with
+  | some nu, some fb =>
+    if nu == "inf" then showRat (applyDofFallback (none : Option Rat) fb) else
+    match parseRat? nu with
+    | some v => showRat (applyDofFallback (some v) fb)
+    | none => "bad-op"
+  | _, _ => "bad-op"
+
+def wireMaxit (args : List (String × String)) : String :=
+  match getArg args "cap" with
+  | some "none" => toString (wiredMaxIterations none)
+  | some c => match c.toNat? with
+    | some n => toString (wiredMaxIterations (some n))
+    | none => "bad-op"
+  | none => "bad-op"
 
 def parseBits? (s : String) : Option (List Bool) :=
   if s == "-" then some [] else
@@ -80,6 +109,8 @@ def handle (cmd : String) (args : List (String × String)) : Option String :=
   match cmd with
   | "modes.from" => some (modesFrom args)
   | "modes.lookup" => some (modesLookup args)
+  | "modes.dof" => some (modesDof args)
+  | "wire.maxit" => some (wireMaxit args)
   | "cad.trace" => some (cadTrace args)
   | _ => none
 
